@@ -62,6 +62,7 @@ func (e *Exec) RunFunction(fn *ssa.Function) (err error) {
 	}
 	e.entry = st.clone()
 	if c := e.contractOf(fn); c != nil {
+		e.lemmas(fr, st, c)
 		e.assumeRequires(fr, st, c)
 	}
 	e.execFunc(fr, st)
@@ -982,4 +983,20 @@ func (e *Exec) listTag() *Term {
 		return nil
 	}
 	return IntLit(int64(e.tag(lt.Type())))
+}
+
+// lemmas: state-independent obligations of a contract block.
+func (e *Exec) lemmas(fr *Frame, st *State, c *Contract) {
+	for _, lm := range c.Lemmas {
+		if lm.Var == "" {
+			en := e.newEnv(fr, st, st)
+			e.oblige(st, "lemma", lm.Label, e.evalClause(en, &Clause{Text: lm.Text, Expr: lm.Expr}), "")
+			continue
+		}
+		for v := lm.Lo; v <= lm.Hi; v++ {
+			en := e.newEnv(fr, st, st)
+			en.vars[lm.Var] = ev{IntLit(int64(v)), nil}
+			e.oblige(st, "lemma", fmt.Sprintf("%s[%d]", lm.Label, v), e.evalClause(en, &Clause{Text: lm.Text, Expr: lm.Expr}), "")
+		}
+	}
 }
